@@ -196,6 +196,8 @@ def judge_cyclic(res, report):
             if lo["check_vd"]:
                 report("violation", "C20/cyclic/check_vd-accepts-altered/bad-link/%s" % comp,
                        "check_cyclic_proof_verifier_data accepts a proof whose embedded %s differs" % comp, payload)
+            if x["extend_outcome"] == "rejected":
+                st["rejected_after"].add("BadBaseDigest" if comp == "digest" else "BadBaseCap")
             eo = x.get("extended_obs")
             if x["extend_outcome"] == "ok" and eo and eo["verify"] and eo["check_vd"]:
                 report("violation", "C20/cyclic/chain-extended-from-bad-link/%s" % comp,
